@@ -270,6 +270,25 @@ Proof.
     injection H as <-. reflexivity.
 Qed.
 
+(* ... and so do the element descriptions it writes, at every dimension *)
+Lemma items_valid_generated p : forall tc s,
+  getSchemaForABIInput p tc = Ok s -> itemsValid (s_items s) tc = Ok tt.
+Proof.
+  induction tc as [et sfx m n|c IH k|c IH|children]; intros s H; try reflexivity.
+  - change (CFixedArr c k) with (wrap1_tc c (Some k)) in H. rewrite getSchema_wrap1 in H.
+    destruct (getSchemaForABIInput p c) as [[t o d pr it]| |] eqn:G; cbn [bind] in H; try discriminate.
+    injection H as <-. cbn [lift s_items itemsValid].
+    change (inputTypeValidForTypeComponent (Schema t o None pr it) c)
+      with (inputTypeValidForTypeComponent (Schema t o d pr it) c).
+    rewrite (input_type_valid_generated p c _ G). cbn [bind]. exact (IH _ eq_refl).
+  - change (CDynArr c) with (wrap1_tc c None) in H. rewrite getSchema_wrap1 in H.
+    destruct (getSchemaForABIInput p c) as [[t o d pr it]| |] eqn:G; cbn [bind] in H; try discriminate.
+    injection H as <-. cbn [lift s_items itemsValid].
+    change (inputTypeValidForTypeComponent (Schema t o None pr it) c)
+      with (inputTypeValidForTypeComponent (Schema t o d pr it) c).
+    rewrite (input_type_valid_generated p c _ G). cbn [bind]. exact (IH _ eq_refl).
+Qed.
+
 Definition rename (nm : bytes) (p : fparam) : fparam :=
   match p with FParam _ t i x cs => FParam nm t i x cs end.
 Lemma rename_self p : rename (fp_name p) p = p. Proof. destruct p; reflexivity. Qed.
@@ -367,7 +386,8 @@ Proof.
         with (erase (norm (FParam n T i x cs))).
       rewrite parse_norm. cbn [erase]. rewrite parse_unfold. cbv zeta. fold sa. rewrite EB. cbn [bind]. exact HP0. }
     rewrite EP. cbn [bind].
-    rewrite (input_type_valid_generated p (wrap_tc base ds) _ (getSchema_wrap p ds base sb Gb)). reflexivity.
+    rewrite (input_type_valid_generated p (wrap_tc base ds) _ (getSchema_wrap p ds base sb Gb)). cbn [bind].
+    rewrite (items_valid_generated p (wrap_tc base ds) _ (getSchema_wrap p ds base sb Gb)). reflexivity.
 Qed.
 
 (* ---------- one parameter, there and back ---------- *)
